@@ -4,11 +4,13 @@ import json, os, re, subprocess, sys, time, hashlib
 VERIF = os.path.dirname(os.path.dirname(os.path.abspath(__file__)))
 LEAN = os.path.join(VERIF, "lean")
 HARNESS = os.path.join(VERIF, "harness")
-TARGET = os.path.join(VERIF, ".cache", "target")
+TARGET = os.environ.get("VERIF_TARGET") or os.path.join(VERIF, ".cache", "target")
 VH = os.path.join(TARGET, "debug", "vh")
 DRV = os.path.join(LEAN, ".lake", "build", "bin", "mdkdrv")
 ALLOWED_AXIOMS = {"propext", "Classical.choice", "Quot.sound"}
 ENV = dict(os.environ, CARGO_NET_OFFLINE="true")
+if os.environ.get("VERIF_TARGET"):
+    ENV["CARGO_TARGET_DIR"] = os.environ["VERIF_TARGET"]
 
 def sh(cmd, cwd=None, inp=None, timeout=None, env=None):
     p = subprocess.run(cmd, cwd=cwd, input=inp, capture_output=True, text=True, timeout=timeout, env=env or ENV)
